@@ -1,6 +1,7 @@
 package mpb
 
 import (
+	"math/big"
 	"runtime"
 	"strings"
 	"sync/atomic"
@@ -164,4 +165,13 @@ func vJit() {
 	case x%40 == 1:
 		time.Sleep(time.Duration((x>>20)%300) * time.Microsecond)
 	}
+}
+
+// vMulDiffWithin: k*|a*b - c*d| <= bound over the mathematical integers (the engine computes harness
+// arithmetic exactly; the native oracle must not wrap either).
+func vMulDiffWithin(a, b, c, d, k, bound int64) bool {
+	x := new(big.Int).Mul(big.NewInt(a), big.NewInt(b))
+	y := new(big.Int).Mul(big.NewInt(c), big.NewInt(d))
+	x.Sub(x, y).Abs(x).Mul(x, big.NewInt(k))
+	return x.Cmp(big.NewInt(bound)) <= 0
 }
